@@ -79,4 +79,20 @@ SPEC = dict(
     rtol=1e-12, atol=0.0,
     modes=["", "e2e", "ts"],
     flow="harness_first",
+    rule="mode '' (loc): every internal step of fixed-step return-every-step runs of the 8 AbstractIntegratorRep integrators with 1-3 "
+         "time-only witness functions (t-a, sin(at+b), (t-a)(t-b); rising/falling/both; simultaneous; zero at start; report time "
+         "inside / at the end of the step; scheduled time before / near / after the step end) is one record, localisation "
+         "recomputed by the model; mode 'e2e': variable-step runs of all 10 integrators with analytic crossing times, one record "
+         "per reported event window + one per session; mode 'ts': TimeStepper sessions with triggered / scheduled-list / "
+         "periodic handlers and a periodic reporter; distinct = distinct records",
+    partial="that a sign change exists between two probe times is a property of the trajectory (trigger values are an oracle); "
+            "CPODES' own root finder is not modelled (its windows are checked by the acceptance predicate and P lines only); "
+            "TimeStepper: only the status dispatch is modelled, time order / exact scheduled times / restart state are P lines; "
+            "the time-order theorem for handlers is NOT stated because of finding C19#1 (a report time inside an event window)",
+    assumptions=[
+        "trigger function values at probe times are an oracle `eval`; the theorems hold for every oracle",
+        "`Infinity` is any value >= t1 and >= t1-t0 (hypotheses hinf, hinf2 of localize_spec)",
+        "loc records use time-only witnesses so that the driver can evaluate them (same libm sin); state-dependent witnesses are exercised by C19",
+        "e2e: maximum step size < 0.3 x the smallest gap between sign changes of any witness, so no crossing can come and go within one step",
+    ],
 )
